@@ -36,63 +36,7 @@ def date_classes(tier):
     return out, st
 
 
-class SingleCone:
-    """the whole graph evaluated from root inputs for one person (ids / pointers concrete)"""
-
-    def __init__(self, dag):
-        from _gettsim.config import TYPES_INPUT_VARIABLES
-        self.dag = dag
-        self.frontier = {}
-        self.syms = {}
-        for n in dag.graph.nodes:
-            if dag.kind(n) != "input":
-                continue
-            ty = TYPES_INPUT_VARIABLES.get(n)
-            if n in ("p_id", "hh_id"):
-                self.frontier[n] = SymArray([0], int)
-            elif n.startswith(POINTERS):
-                self.frontier[n] = SymArray([-1], int)
-            elif ty in (float, int, bool):
-                s = R.sym_for(n, ty)
-                self.syms[n] = s
-                self.frontier[n] = SymArray([s], ty)
-            else:
-                self.frontier[n] = None
-        self.cache = {}
-        self.ctxs = {}
-
-    def value(self, n):
-        """(column value, ctx with the error guards of n alone)"""
-        if n in self.cache:
-            return self.cache[n], self.ctxs.get(n)
-        if n in self.frontier:
-            if self.frontier[n] is None:
-                raise R.Unsupported(f"input {n} has no scalar type")
-            self.cache[n] = self.frontier[n]
-            return self.cache[n], None
-        kwargs = {}
-        for p in self.dag.parents(n):
-            kwargs[p], _ = self.value(p)
-        ctx = R.Ctx()
-        with R.using(ctx):
-            try:
-                v = R.call_value(self.dag.funcs[n], [], kwargs)
-            except R.PathEnd:
-                v = None
-        self.cache[n], self.ctxs[n] = v, ctx
-        if v is None:
-            raise R.Unsupported(f"{n} raises on every path")
-        return v, ctx
-
-    def ancestors_ok(self, n):
-        """no ancestor of n raises (their own obligations)"""
-        import networkx as nx
-        gs = []
-        for a in nx.ancestors(self.dag.graph, n):
-            c = self.ctxs.get(a)
-            if c is not None:
-                gs += [g for g, k, w in c.errors]
-        return [z3.Not(z3.Or(gs))] if gs else []
+SingleCone = rulebank.SingleCone
 
 
 def check_date(ck, date, seen):
